@@ -320,8 +320,11 @@ def mean_polynomial(ctx, fq, sample="self"):
         ctx.need(len(tgt) == 1, f"{f.site()}: self.Mu assignment not found")
         e = inline(tgt[0].value, env)
     else:
-        r = [x for x in returns(f.node)]
-        e = inline(r[-1].value, env)
+        # the linear-predictor return: the one without the logistic squashing
+        r = [inline(x.value, env) for x in returns(f.node) if x.value is not None]
+        lin = [v for v in r if not any(isinstance(x, ast.Call) and call_name(x) in ("expit", "np.exp", "np.clip") for x in ast.walk(v))]
+        ctx.need(len(lin) == 1, f"{f.site()}: linear-predictor return not found")
+        e = lin[0]
 
     def at(x, N):
         if isinstance(x, ast.Call) and isinstance(x.func, ast.Attribute) and x.func.attr == "get" and U(x.func.value) == "self" and len(x.args) == 2:
